@@ -558,6 +558,28 @@ def run(chk):
             for line, var, text, lb in rep:
                 chk.violation(r_sb, "%s:%s:%s" % (f["q"], var, text), "%s: `%s` at a point where `%s` may be empty (nothing on this path establishes size() >= 1: no push since the last pop/clear, no test of empty()/size(), no guarding helper): front/back/pop on an empty sequence is undefined - a read or write outside the buffer, no exception" % (f["q"], text, var), f["file"], line)
 
+    # ---- C20.parallel: parallel vectors stay the same length
+    r_pv = chk.rule("C20.parallel", "classes that keep two sequences side by side and range-check an index against one of them only (DeckItem: value_status beside the typed value vector; TableColumn: m_default beside m_values): in every statement list of every member function, each of the value sequences that changes its length changes it by the same operations as the checked sequence (push_back with push_back, insert(end, n, ..) with insert(end, n, ..), assignment from the same source) - otherwise get(i) / operator[] read past the end of the shorter one for an index that passed the check", floor=8)
+    from verif import parallel
+    PARALLEL = [("opm/input/eclipse/Deck/DeckItem.cpp", "Opm::DeckItem", "value_status", ("ival", "dval", "sval", "rsval", "uval"), ("value_ref",)),
+                ("opm/input/eclipse/EclipseState/Tables/TableColumn.cpp", "Opm::TableColumn", "m_default", ("m_values",), ())]
+    for pfile, pcls, pguard, pdata, prefs in PARALLEL:
+        n_here = 0
+        for f in fx.fns:
+            if not f.get("body") or not f["file"].endswith(pfile) or (f.get("cls") or "") != pcls:
+                continue
+            got, bad = parallel.unbalanced(f, pguard, pdata, prefs)
+            if not got:
+                continue
+            n_here += 1
+            key = "%s@%d" % (f["q"], f["l"])
+            chk.instance(r_pv, key, sample=dict(function=f["q"], operations=[(g[3], g[4], list(g[5])) for g in got]))
+            for line, base, gops, wrong in bad:
+                chk.violation(r_pv, key, "%s: `%s%s` changes by %s but %s: an index accepted against %s.size() is then out of range for the other sequence" % (
+                    f["q"], base, pguard, [list(o) for o in gops] or "nothing", "; ".join("`%s` changes by %s" % (m_, [list(o) for o in o_]) for m_, o_ in sorted(wrong.items())) or "no value sequence changes", pguard), f["file"], line)
+        if n_here < 2:
+            raise core.AnalysisBroken("%s: only %d member functions change the length of %s / %s" % (pcls, n_here, pguard, "/".join(pdata)))
+
     r_cu = chk.rule("C20.cursor", "token cursors (an index compared with V.size(), used in V[idx] and advanced by the code): every V[idx] is preceded on every path by a test that establishes idx < V.size() since the last advance; where the end is tested with equality the cursor is never advanced from a state that may already be the end", floor=40)
     n_cursors = 0
     for f in fx.fns:
